@@ -100,3 +100,95 @@ Theorem C14_regression_F14e :
   structure u_F14e j_F14e = Ok (VDict [(k_q, VInt 1%Z)]) /\ approx (unstructure (VDict [(k_q, VInt 1%Z)])) j_F14e = true.
 Proof. exact regression_F14e. Qed.
 Print Assumptions C14_regression_F14e.
+
+(* ===================== F14f: the converter as a state machine (Model/UnionHist.v) ===================== *)
+From PG Require Import Model.UnionHist Proofs.UnionHist Model.UnionGen Proofs.UnionGen.
+
+(* C14_history_free (full statement, FALSE on the model — see C14_refuted_F14f):
+     forall rqs, history_free rqs.
+   What holds: for every process (any number of calls, any payloads) in which no two container types
+   with the same order-insensitive key (typing's Union equality) but a different member order are
+   used, every call returns exactly what it returns in a fresh process. *)
+Theorem C14_history_free_partial : forall rqs, consistent (map fst rqs) -> history_free rqs.
+Proof. exact history_free_partial. Qed.
+Print Assumptions C14_history_free_partial.
+
+(* the same under the executable guard evaluated by the correspondence run *)
+Theorem C14_history_free_partial_b : forall rqs, consistentb (map fst rqs) = true -> history_free rqs.
+Proof. exact history_free_partial_b. Qed.
+Print Assumptions C14_history_free_partial_b.
+
+Theorem C14_refuted_F14f :
+  consistentb (map fst h_F14f) = false
+  /\ structure (TList u_is) (JArr [JInt 5%Z]) = Ok (VList [VInt 5%Z])
+  /\ safe (TList u_is) (JArr [JInt 5%Z]) = true
+  /\ UnionHist.run empty_state h_F14f = [Ok (VList [VStr [53]]); Ok (VList [VStr [53]])]
+  /\ ~ history_free h_F14f.
+Proof. exact refuted_F14f. Qed.
+Print Assumptions C14_refuted_F14f.
+
+Theorem C14_hist_guard_nonvacuous :
+  consistentb (map fst [(TList u_is, JArr [JInt 5%Z]); (TMap (TList u_is), JObj [([97], JArr [JStr [98]])]);
+                        (TList (TUnion None [TBool; TStr; TNone]), JArr [JNull])]) = true.
+Proof. exact hist_guard_nonvacuous. Qed.
+Print Assumptions C14_hist_guard_nonvacuous.
+
+(* ===================== generator side (Model/UnionGen.v) ===================== *)
+(* C14_collect (full statement, FALSE — see C14_refuted_F14g / F14h): forall us, spec_collect us.
+   What holds: after DiscriminatorEnumCollector ran over any list of discriminated unions, every
+   payload that a union's own mapping sends to one of its variants is accepted by that variant's
+   discriminator field, provided no variant belongs to two discriminated unions and no variant is the
+   target of two discriminator values. *)
+Theorem C14_collect_partial : forall us,
+  guard_F14g us = true -> guard_F14h us = true -> spec_collect us.
+Proof. exact collect_partial. Qed.
+Print Assumptions C14_collect_partial.
+
+Theorem C14_refuted_F14g :
+  guard_F14g [u_Pet; u_Zoo] = false /\ guard_F14h [u_Pet; u_Zoo] = true /\
+  alookup n_Cat (collect [u_Pet; u_Zoo]) = Some [v_kat; v_fox] /\ ~ spec_collect [u_Pet; u_Zoo].
+Proof. exact refuted_F14g. Qed.
+Print Assumptions C14_refuted_F14g.
+
+Theorem C14_refuted_F14h :
+  guard_F14g [u_Pet2] = true /\ guard_F14h [u_Pet2] = false /\
+  alookup n_Cat (collect [u_Pet2]) = Some [v_kitty; v_dog] /\ ~ spec_collect [u_Pet2].
+Proof. exact refuted_F14h. Qed.
+Print Assumptions C14_refuted_F14h.
+
+Theorem C14_collect_guard_nonvacuous :
+  guard_F14g [u_Pet; {| du_name := [90]; du_variants := [n_Fox]; du_mapping := [(v_fox, n_Fox)] |}] = true /\
+  guard_F14h [u_Pet; {| du_name := [90]; du_variants := [n_Fox]; du_mapping := [(v_fox, n_Fox)] |}] = true.
+Proof. exact collect_guard_nonvacuous. Qed.
+Print Assumptions C14_collect_guard_nonvacuous.
+
+(* _resolve_one_of/_resolve_any_of (full): the emitted Union lists the members in spec order — the first
+   occurrence of each, no duplicates, none lost — and a nullable union is that text followed by " | None". *)
+Theorem C14_resolver_order : forall m1 m2 ms nullable,
+  alias_type (m1 :: m2 :: ms) nullable
+  = s_Union_open ++ join [44;32] (first_occurrences [] (m1 :: m2 :: ms)) ++ [93]
+    ++ (if nullable then s_or_None else [])
+  /\ NoDup (first_occurrences [] (m1 :: m2 :: ms))
+  /\ (forall x, In x (first_occurrences [] (m1 :: m2 :: ms)) <-> In x (m1 :: m2 :: ms)).
+Proof. exact resolve_union_spec. Qed.
+Print Assumptions C14_resolver_order.
+
+(* ===================== exactness of the guard of C14_lossless_partial ===================== *)
+(* [safe] is sufficient, not necessary: the acceptance test inside it is exact for primitive variants
+   (C14_guard_exact_prims) but a shape-level over-approximation for dataclass variants
+   (C14_lossless_not_safe).
+   NOT PROVED (conjecture, stated for the exact guard safe_x := safe with [may_accept v j] replaced by
+   "structure v j succeeds"):
+     C14_safe_exact : forall t j, wf_ty t -> wf_json j -> (lossless t j <-> safe_x t j = true).
+   The -> direction needs the inverse of every relational lemma of Proofs/Union.v (kv_rel, fs_rel,
+   first_safe_try) — about as long again as safe_lossless; see the manifest. *)
+Theorem C14_guard_exact_prims :
+  safe (TUnion None [TInt; TStr]) (JStr [97]) = true /\ safe (TUnion None [TInt; TStr]) (JStr [55]) = false.
+Proof. exact safe_int_str_nondigit. Qed.
+Print Assumptions C14_guard_exact_prims.
+
+Theorem C14_lossless_not_safe :
+  safe (TUnion None [tA; tS]) (JObj [(k_x, JStr [113])]) = false /\
+  lossless (TUnion None [tA; tS]) (JObj [(k_x, JStr [113])]).
+Proof. exact lossless_not_safe. Qed.
+Print Assumptions C14_lossless_not_safe.
